@@ -87,6 +87,11 @@ type e2eEnv struct {
 }
 
 func newE2E(tables []tableDef, serverID uint32, mapper gobinlog.MysqlTableMapper) (*e2eEnv, error) {
+	return newE2EDSN(tables, serverID, mapper, "")
+}
+
+// newE2EDSN: dsnParams is appended to the data source name ("?maxAllowedPacket=64" ...).
+func newE2EDSN(tables []tableDef, serverID uint32, mapper gobinlog.MysqlTableMapper, dsnParams string) (*e2eEnv, error) {
 	env := &e2eEnv{}
 	m, err := newFakeMaster(func(idx int, req dumpReq) []action {
 		env.mu.Lock()
@@ -103,7 +108,7 @@ func newE2E(tables []tableDef, serverID uint32, mapper gobinlog.MysqlTableMapper
 	if mapper == nil {
 		mapper = &hMapper{tables: tables}
 	}
-	env.s, _ = gobinlog.NewStreamer(m.dsn(), serverID, mapper)
+	env.s, _ = gobinlog.NewStreamer(m.dsn()+dsnParams, serverID, mapper)
 	return env, nil
 }
 
@@ -270,14 +275,28 @@ func signalThen(sig chan struct{}, done chan struct{}) chan struct{} {
 	return ch
 }
 
+// scribbleTx overwrites everything the handler was handed: the bytes of every value, and - a consumer that recycles or
+// zeroes the object after serialising it - the positions, timestamps, names, statement texts and the per-column
+// descriptions.  (The slices keep their lengths and the Data slices their memory: the provenance check reads them.)
 func scribbleTx(t *gobinlog.Transaction) {
+	t.NowPosition = gobinlog.Position{Filename: "#overwritten#", Offset: -1}
+	t.NextPosition = gobinlog.Position{Filename: "#overwritten#", Offset: -2}
+	t.Timestamp = -3
 	for _, e := range t.Events {
+		e.Type = gobinlog.StatementType(99)
+		e.Table = gobinlog.MysqlTableName{DbName: "#db#", TableName: "#table#"}
+		e.Query.Database, e.Query.SQL = "#db#", "#sql#"
+		if e.Query.Charset != nil {
+			e.Query.Charset.Client, e.Query.Charset.Conn, e.Query.Charset.Server = -1, -1, -1
+		}
+		e.Timestamp = -4
 		for _, rows := range [][]*gobinlog.RowData{e.RowValues, e.RowIdentifies} {
 			for _, rd := range rows {
 				for _, c := range rd.Columns {
 					for i := range c.Data {
 						c.Data[i] = 'X'
 					}
+					c.Filed, c.Type, c.IsEmpty = "#field#", gobinlog.ColumnType(255), !c.IsEmpty
 				}
 			}
 		}
@@ -407,7 +426,9 @@ func e2eAttempts(c *Ctx) {
 	faults := []string{"close", "reset", "short", "outofseq", "err", "eof", "cancel-idle", "cancel-handler", "handler-err", "cancel-handler-err"}
 	for k := 0; k < c.N(6, 120); k++ {
 		cfg := baseCfg(r, r.Intn(len(baseCfgs)))
-		h := genHistory(r, cfg, histOpts{units: 4 + r.Intn(5), maxCols: 3, maxRows: 2, rotations: true, ignorables: k%2 == 0})
+		// (a quarter of the histories with offsets in the upper half of the 32-bit range: the stored position of a failed
+		// attempt is then at or beyond 2^31, and the next dump request must carry it unchanged)
+		h := genHistory(r, cfg, histOpts{units: 4 + r.Intn(5), maxCols: 3, maxRows: 2, rotations: true, ignorables: k%2 == 0, bigOffsets: k%4 == 1})
 		if k%3 == 2 {
 			// the stream starts in the file named "" (the master's first binlog): the stored position has an empty
 			// file name until the first rotation
